@@ -1,0 +1,14 @@
+//go:build verif
+
+package qos
+
+import "github.com/cilium/ebpf"
+
+// VerifSetMaps injects already-created maps in place of the ones Start takes
+// from the loaded collection (Start needs the compiled object and a NIC).
+// Add-only verification hook for property C19; it does not touch the maps.
+func (m *Manager) VerifSetMaps(egress, ingress, stats *ebpf.Map) {
+	m.qosEgress = egress
+	m.qosIngress = ingress
+	m.qosStatsMap = stats
+}
